@@ -1426,9 +1426,10 @@ class Wtp:
                             )
                         self.expand_stack.append("ARG-NAME")
                         k: Union[int, str]
-                        k = expand_recurse(
+                        name_with_spaces = expand_recurse(
                             expand_args(args[0], argmap), parent, True
-                        ).strip()
+                        )
+                        k = name_with_spaces.strip()
                         self.expand_stack.pop()
                         if is_positional_name(k):
                             k = int(k)
@@ -1442,8 +1443,10 @@ class Wtp:
                             self.expand_stack.pop()
                             parts.append(ret)
                             continue
-                        # The argument is not defined (or name is empty)
-                        arg = self._unexpanded_arg([str(k)], nowiki)
+                        # The argument is not defined (or name is empty):
+                        # the reference stays as it was written; only the
+                        # lookup key above is normalised
+                        arg = self._unexpanded_arg([name_with_spaces], nowiki)
                         parts.append(arg)
                         continue
                     if kind == "L":
